@@ -107,3 +107,83 @@ def check_against_reference(ctx, case, doc, text, op, variables, result, ref, wi
             ctx.violation(prefix + "errors:to_dict-raises-%s" % type(ex2).__name__, witness, repr(ex2))
             return True
     return True
+
+
+# ---------------------------------------------------------------------------
+# dual (sync / coroutine) cases and one entry point for all six configurations
+# ---------------------------------------------------------------------------
+
+CONFIGS = ["blocking", "generic", "threadpool", "asyncio-coroutines", "asyncio-executor", "asyncio-mixed"]
+DEFERRED = CONFIGS[2:]
+
+
+class DualCase(object):
+    """Same IR and world bound twice: synchronous resolvers (blocking / thread pool / asyncio
+    executor) and a mix of coroutine resolvers behind gates (asyncio)."""
+
+    def __init__(self, rng, key, log=None, world_kw=None, schema_kw=None, served=None):
+        import random
+
+        self.ir = S.generate(rng, **(schema_kw or {"size": rng.choice([1, 2, 2, 3])}))
+        self.world = World(self.ir, key, served=served, **(world_kw or {}))
+        self.sync = Binding(self.world, log=log)
+        self.asyn = Binding(self.world, log=log)
+        r = random.Random("async:%s" % key)
+        for t in self.ir.types.values():
+            if t.kind == "object" and self.world.served_by(t.name) == "resolver":
+                for f in t.fields:
+                    if r.random() < 0.6:
+                        self.asyn.async_fields.add((t.name, f.name))
+        self.schema_sync, _ = S.build_code_schema(self.ir, resolver_for=self.sync.resolver_for,
+                                                  type_resolver_for=self.sync.type_resolver_for)
+        self.schema_async, _ = S.build_code_schema(self.ir, resolver_for=self.asyn.resolver_for,
+                                                   type_resolver_for=self.asyn.type_resolver_for)
+        self.sg = S.SchemaGen(rng)
+        self.sg.s = self.ir
+        self.sdl = S.to_sdl(self.ir)[0]
+
+
+def run_request(config, case, text, op, variables, chooser=None, extra=None):
+    """One execution under one configuration (and, for deferred ones, one schedule).
+    Returns (outcome, trace)."""
+    import py_gql
+    from py_gql.execution import Executor
+
+    from . import sched
+
+    kw = dict(extra() if callable(extra) else (extra or {}))
+    kw.update({"variables": variables, "operation_name": op.name if op is not None else None})
+    root_type = dict(case.ir.roots())[op.kind] if op is not None else case.ir.query
+    if config in ("blocking", "generic"):
+        kw["root"] = case.sync.root_value(root_type)
+        try:
+            if config == "blocking":
+                res = py_gql.graphql_blocking(case.schema_sync, text, **kw)
+            else:
+                res = py_gql.process_graphql_query(case.schema_sync, text, executor_cls=Executor, **kw)
+            return sched.normalise(res), []
+        except Exception as e:
+            return ("raised", e), []
+    if config == "threadpool":
+        kw["root"] = case.sync.root_value(root_type)
+        return sched.run_threadpool(chooser, case.schema_sync, text, kw)
+    in_thread = config != "asyncio-coroutines"
+    binding = case.sync if config == "asyncio-executor" else case.asyn
+    schema = case.schema_sync if config == "asyncio-executor" else case.schema_async
+    kw["root"] = binding.root_value(root_type)
+
+    def setg(g):
+        binding.gates = g
+
+    return sched.run_asyncio(chooser, schema, text, kw, in_thread, setg)
+
+
+def schedules(config, rng, run_with, max_exh, n_samples):
+    """Yields (schedule, (outcome, trace), exhaustive?) for one configuration."""
+    from . import sched
+
+    if config not in DEFERRED:
+        yield [], run_with(None), True
+        return
+    for item in sched.explore(run_with, max_exh, n_samples, rng):
+        yield item
